@@ -8,7 +8,8 @@
 //
 // Part bfs:   explicit-state BFS over event histories (space engine) against the reference bit-set model (model.go).
 // Part sched: all interleavings of concurrent Entry (+ Revoke, Credential) calls at SQL transaction / statement
-//             granularity (sched engine + fault.Pool), from three start states incl. a page one slot before roll-over.
+//
+//	granularity (sched engine + fault.Pool), from three start states incl. a page one slot before roll-over.
 package c11
 
 import (
@@ -28,9 +29,9 @@ import (
 	"time"
 
 	ssi "github.com/nuts-foundation/go-did"
-	"github.com/nuts-foundation/go-stoabs"
 	"github.com/nuts-foundation/go-did/did"
 	"github.com/nuts-foundation/go-did/vc"
+	"github.com/nuts-foundation/go-stoabs"
 	"github.com/nuts-foundation/nuts-node/audit"
 	nutsCrypto "github.com/nuts-foundation/nuts-node/crypto"
 	"github.com/nuts-foundation/nuts-node/jsonld"
@@ -1033,8 +1034,8 @@ func TestVerifC11BFS(t *testing.T) {
 						}
 						return keep, func() {}
 					},
-					Enabled:   func(inst any, _ []event) []event { return inst.(*world).enabledCache },
-					Canon:     func(inst any) string { return inst.(*world).canonCache },
+					Enabled: func(inst any, _ []event) []event { return inst.(*world).enabledCache },
+					Canon:   func(inst any) string { return inst.(*world).canonCache },
 					Invariant: func(inst any, h []event) {
 						w := inst.(*world)
 						r.Eval(w.canonCache)
@@ -1042,8 +1043,8 @@ func TestVerifC11BFS(t *testing.T) {
 							r.Sample(map[string]any{"start": start, "history": fmt.Sprint(w.hist), "state": w.canonCache})
 						}
 					},
-					MaxDepth:  depth - 2,
-					Budget:    r.Expired,
+					MaxDepth: depth - 2,
+					Budget:   r.Expired,
 				}
 				res := space.BFS(sys)
 				r.States(res.States)
